@@ -475,6 +475,15 @@ var seqForms = map[string]string{
 	"comp-unpack":  "def scenario(x):\n    y = [1 for %s in [x]]\n    probe(x)\n    return 0\n",
 	"star-args":    "def callee(%s):\n    return 1\ndef scenario(x):\n    callee(*x)\n    probe(x)\n    return 0\n",
 	"star-builtin": "def scenario(x):\n    # %s\n    max(0, *x)\n    probe(x)\n    return 0\n",
+	// *x together with a ** operand that is rejected (not a mapping, non-string key), accepted, or x itself
+	"star-kw-notmapping": "def callee(%s):\n    return 1\ndef scenario(x):\n    callee(*x, **1)\n    probe(x)\n    return 0\n",
+	"star-kw-badkey":     "def callee(%s):\n    return 1\ndef scenario(x):\n    callee(*x, **{1: 2})\n    probe(x)\n    return 0\n",
+	"star-kw-unknown":    "def callee(%s):\n    return 1\ndef scenario(x):\n    callee(*x, **{\"zz\": 2})\n    probe(x)\n    return 0\n",
+	"star-kw-self":       "def callee(%s):\n    return 1\ndef scenario(x):\n    callee(*x, **x)\n    probe(x)\n    return 0\n",
+	"star-named-kw":      "def callee(%s):\n    return 1\ndef scenario(x):\n    callee(0, k = 1, *x, **{2: 3})\n    probe(x)\n    return 0\n",
+	"star-builtin-kw":    "def scenario(x):\n    # %s\n    max(0, *x, **1)\n    probe(x)\n    return 0\n",
+	"star-notcallable":   "def scenario(x):\n    # %s\n    (5)(*x)\n    probe(x)\n    return 0\n",
+	"kw-then-star-x":     "def callee(%s):\n    return 1\ndef scenario(x):\n    callee(*[1], **x)\n    probe(x)\n    return 0\n",
 }
 
 func checkSeq(c SeqCase) error {
@@ -487,11 +496,11 @@ func checkSeq(c SeqCase) error {
 		names = append(names, fmt.Sprintf("v%d", i))
 	}
 	targets := strings.Join(names, ", ")
-	if c.Want == 1 && c.Form != "star-args" {
+	if c.Want == 1 && !strings.HasPrefix(c.Form, "star-") && c.Form != "kw-then-star-x" {
 		targets = "(" + targets + ",)"
 	}
 	if c.Want == 0 {
-		if c.Form == "star-args" || c.Form == "star-builtin" {
+		if strings.HasPrefix(c.Form, "star-") || c.Form == "kw-then-star-x" {
 			targets = ""
 		} else {
 			return nil
@@ -516,7 +525,7 @@ func checkSeq(c SeqCase) error {
 	_, err = starlark.Call(thread, g["scenario"], starlark.Tuple{x}, nil)
 	what := fmt.Sprintf("%+v (err=%v)", c, err)
 	if e := postConditions(Case{}, what, obs, x, thread, depth, initial); e != nil {
-		if c.Form != "star-args" && c.Form != "star-builtin" && c.N > c.Want && strings.Contains(e.Error(), "not mutable after the outermost call returned") {
+		if !strings.HasPrefix(c.Form, "star-") && c.Form != "kw-then-star-x" && c.N > c.Want && strings.Contains(e.Error(), "not mutable after the outermost call returned") {
 			return vk.Known("C06-unpack-too-many-leaks-lock", e)
 		}
 		return e
@@ -563,6 +572,7 @@ type BuiltinCase struct {
 	Callee string `json:"callee"`
 	Pos    int    `json:"pos"`  // argument position of the collection
 	Argc   int    `json:"argc"` // total positional arguments
+	Nested bool   `json:"nested,omitempty"`
 }
 
 func makeElems(kind, elems string) starlark.Value {
@@ -684,6 +694,11 @@ func checkBuiltin(c BuiltinCase) error {
 		args[i] = starlark.MakeInt(1)
 		if i == c.Pos {
 			args[i] = x
+			if c.Nested {
+				// the collection is an element of the operand: built-ins that walk nested iterables (dict, update, zip of
+				// rows, join, min/max/sorted over lists, sum-like folds) iterate it as a pair / row / item
+				args[i] = starlark.NewList([]starlark.Value{x})
+			}
 		}
 	}
 	if strings.HasPrefix(c.Callee, "op:") {
@@ -750,8 +765,14 @@ func TestPropBuiltins(t *testing.T) {
 					for argc := 1; argc <= 3; argc++ {
 						for pos := 0; pos < argc; pos++ {
 							i++
-							if vk.Mine(i) && !yield(BuiltinCase{coll, el, n, pos, argc}) {
+							if vk.Mine(i) && !yield(BuiltinCase{coll, el, n, pos, argc, false}) {
 								return
+							}
+							if !strings.HasPrefix(n, "op:") && argc <= 2 {
+								i++
+								if vk.Mine(i) && !yield(BuiltinCase{coll, el, n, pos, argc, true}) {
+									return
+								}
 							}
 						}
 					}
